@@ -8,7 +8,7 @@ export const PROVENANCE = ['vueNamed', 'vueNamedInner', 'vueAliased', 'nsMember'
 export const DECLS = ['const', 'let', 'var', 'exportConst', 'exportDefault', 'assignment', 'nestedInCall', 'objectProp'];
 // user-supplied option keys: how each of props / emits / name is written (or not)
 const KEY_FORMS = ['absent', 'kv', 'strKey', 'shorthand', 'computedLit', 'viaSpread'];
-export const SHAPES = ['none', 'objLiteral', 'objLiteralTwoSpreads', 'identOptions', 'callOptions', 'spreadArgsAll', 'spreadArgsRest', 'spreadArgsSetupOnly', 'spreadHeadThenOpts', 'objectFirstArg', 'namedFnExpr', 'noArgs'];
+export const SHAPES = ['none', 'objLiteral', 'objLiteralTwoSpreads', 'identOptions', 'callOptions', 'spreadArgsAll', 'spreadArgsRest', 'spreadArgsSetupOnly', 'spreadHeadThenOpts', 'objectFirstArg', 'namedFnExpr', 'noArgs', 'identOptionsThirdArg', 'objLiteralThirdArg'];
 
 const USER = { props: 'UP', emits: 'UE', name: '"UserName"' };
 
@@ -71,6 +71,9 @@ function buildCase(rng, prov, decl, shape, forms, resolveType) {
     case 'spreadArgsSetupOnly': L.push(`const ARGS1: [any] = [${setup}];`); args = '...ARGS1'; augmentable = false; for (const k of Object.keys(supplied)) delete supplied[k]; break;
     case 'spreadHeadThenOpts': L.push(`const HEAD: [any] = [${setup}];`, `const UO = { ${[...members, ...spreadMembers, ...other].join(', ')} };`); args = '...HEAD, UO'; augmentable = false; break;
     case 'identOptions': L.push(`const UO = { ${[...members, ...spreadMembers, ...other].join(', ')} };`); args = `${setup}, UO`; break;
+    // a third argument (Vue ignores it, the user's call still passes it)
+    case 'identOptionsThirdArg': L.push(`const UO = { ${[...members, ...spreadMembers, ...other].join(', ')} };`, 'const third = () => "third-arg";'); args = `${setup}, UO, third()`; break;
+    case 'objLiteralThirdArg': args = `${setup}, { ${[...members, ...other].join(', ')} }, "third-arg"`; for (const k of Object.keys(supplied)) if (forms[k] === 'viaSpread') delete supplied[k]; break;
     case 'callOptions': L.push(`const mkUO = () => ({ ${[...members, ...spreadMembers, ...other].join(', ')} });`); args = `${setup}, mkUO()`; break;
     case 'spreadArgsAll': L.push(`const ARGS: [any, any] = [${setup}, { ${[...members, ...spreadMembers, ...other].join(', ')} }];`); args = '...ARGS'; augmentable = false; break;
     case 'spreadArgsRest': L.push(`const REST: [any] = [{ ${[...members, ...spreadMembers, ...other].join(', ')} }];`); args = `${setup}, ...REST`; augmentable = false; break;
@@ -179,6 +182,7 @@ export async function check(group, records) {
         if (res.name !== 'ObjForm' || JSON.stringify(res.props) !== JSON.stringify(USERVAL.props)) return [violated({ ...base, oracle: 'object-form component unchanged', sig: 'C20/object-form-changed', detail: short(res) })];
         return [held({ ...base, events: { defineComponent: 1, argc: c.argc } })];
       }
+      if (/ThirdArg$/.test(spec.shape) && c.argc !== 3) return [violated({ ...base, oracle: 'the user\'s other arguments are still passed', sig: `C20/user-argument-lost/${spec.shape}`, detail: { argc: c.argc } })];
       const extra = c.extraOptions || {};
       const got = { props: canonOpt(extra.props), emits: canonOpt(extra.emits), name: c.res && c.res.name };
       const alternatives = [];
@@ -203,7 +207,7 @@ export async function check(group, records) {
     // non-vue callee: the call must be untouched (same argument count, no injected keys)
     const calls = rt.log.filter((e) => (e.k === 'call' && (e.id === 'recordDC' || e.id === 'other.defineComponent')) || e.k === 'defineAsyncComponent');
     if (calls.length !== 1) return [inconclusive({ ...base, reason: `expected 1 recorded call, saw ${calls.length}` })];
-    const expectedArgc = { noArgs: 0, none: 1, objLiteral: 2, objLiteralTwoSpreads: 2, identOptions: 2, callOptions: 2, spreadArgsAll: 2, spreadArgsRest: 2, spreadArgsSetupOnly: 1, spreadHeadThenOpts: 2, objectFirstArg: 1, namedFnExpr: /, \{/.test(group.cases.v0.src.split('OwnName')[1] || '') ? 2 : 1 }[spec.shape];
+    const expectedArgc = { noArgs: 0, identOptionsThirdArg: 3, objLiteralThirdArg: 3, none: 1, objLiteral: 2, objLiteralTwoSpreads: 2, identOptions: 2, callOptions: 2, spreadArgsAll: 2, spreadArgsRest: 2, spreadArgsSetupOnly: 1, spreadHeadThenOpts: 2, objectFirstArg: 1, namedFnExpr: /, \{/.test(group.cases.v0.src.split('OwnName')[1] || '') ? 2 : 1 }[spec.shape];
     const argc = calls[0].id === 'recordDC' ? undefined : calls[0].argc;
     // recordDC("tag", argc, a, b): look at the final text instead of the values for the injected keys
     const finalCall = rec.final;
